@@ -46,6 +46,7 @@ class Exec:
         self.smt_time = 0.0
         self.events = []          # monitor events (dicts), in order
         self.notes = []
+        self.known = []           # known findings met on this path: (id, prop, msg)
 
     # ---- decisions -----------------------------------------------------------------
     def choose(self, n, label=""):
@@ -180,6 +181,17 @@ class Exec:
         if r == z3.sat:
             raise Violation(prop, msg, self.witness(model, detail))
 
+    def known_finding(self, kid, prop, msg):
+        """the monitor recognised the specific history of a finding.  If that finding is listed
+        as open in /verif/known_findings.json the path goes on (other assertions are still
+        checked) and the hit is reported as KNOWN-FINDING; otherwise it is a violation."""
+        if kid in open_known_findings(prop):
+            if not any(k[0] == kid for k in self.known):
+                self.known.append((kid, prop, msg, _plain(self.witness(None))))
+            self.event(ev="known_finding", id=kid, msg=msg[:200])
+            return
+        raise Violation(prop, msg, self.witness(None))
+
     def witness(self, model, detail=None):
         vals = {}
         if model is None:
@@ -196,8 +208,34 @@ class Exec:
         self.events.append(kw)
 
 
+_KF_CACHE = {}
+
+
+def open_known_findings(prop):
+    import json, os
+    if "all" not in _KF_CACHE:
+        try:
+            d = json.load(open(os.path.join(os.path.dirname(os.path.dirname(os.path.dirname(os.path.abspath(__file__)))), "known_findings.json")))
+        except Exception:
+            d = {"findings": []}
+        _KF_CACHE["all"] = d.get("findings", [])
+    return {k["id"] for k in _KF_CACHE["all"] if k.get("property") == prop and k.get("status") == "open" and "id" in k}
+
+
+def _merge_known(st, items):
+    for kid, prop, msg, wit in items:
+        e = st.known.setdefault(kid, {"property": prop, "count": 0, "message": msg, "witness": wit})
+        e["count"] += 1
+
+
 class Stats:
+    known = None
+
     def __init__(self):
+        self.known = {}
+        self._init()
+
+    def _init(self):
         self.paths = 0
         self.infeasible = 0
         self.smt_queries = 0
@@ -251,6 +289,7 @@ def explore(run_path, max_paths=20000, time_budget=None, max_steps=400000, on_pa
         st.smt_queries += ex.smt_queries
         st.smt_time += ex.smt_time
         st.steps += getattr(ex, "steps", 0)
+        _merge_known(st, ex.known)
         st.max_decisions = max(st.max_decisions, len(ex.decisions))
         if len(st.samples) < 3 and ex.events:
             st.samples.append({"decisions": list(ex.decisions), "events": ex.events[:40]})
@@ -261,6 +300,21 @@ def explore(run_path, max_paths=20000, time_budget=None, max_steps=400000, on_pa
 
 # ------------------------------------------------------------------ parallel exploration
 _PAR = {}
+
+
+def _plain(x):
+    """make a witness picklable / printable: z3 terms and symbolic integers become strings"""
+    if isinstance(x, dict):
+        return {k: _plain(v) for k, v in x.items()}
+    if isinstance(x, (list, tuple)):
+        return [_plain(v) for v in x]
+    if isinstance(x, z3.AstRef):
+        return str(x)
+    if hasattr(x, "bits") and hasattr(x, "v"):
+        return x.v if isinstance(x.v, int) else str(x.v)
+    if isinstance(x, (int, str, float, bool)) or x is None:
+        return x
+    return str(x)
 
 
 def _worker(args):
@@ -287,7 +341,7 @@ def _worker(args):
             st.sleep_pruned += 1
         except Violation as v:
             st.paths += 1
-            violations.append((v.prop, v.msg, v.detail))
+            violations.append((v.prop, v.msg, _plain(v.detail)))
             if len(violations) >= 2:
                 st.truncated = True
                 break
@@ -299,6 +353,7 @@ def _worker(args):
         st.smt_queries += ex.smt_queries
         st.smt_time += ex.smt_time
         st.steps += getattr(ex, "steps", 0)
+        _merge_known(st, ex.known)
         st.max_decisions = max(st.max_decisions, len(ex.decisions))
         if len(st.samples) < 1 and ex.events:
             st.samples.append({"decisions": [list(x) for x in ex.full], "events": [{k: str(v) for k, v in e.items() if k != "now_raw"} for e in ex.events[:40]]})
@@ -337,6 +392,7 @@ def explore_parallel(run_path, max_paths=20000, time_budget=None, max_steps=4000
         st.smt_queries += ex.smt_queries
         st.smt_time += ex.smt_time
         st.steps += getattr(ex, "steps", 0)
+        _merge_known(st, ex.known)
         if len(st.samples) < 2 and ex.events:
             st.samples.append({"decisions": [list(x) for x in ex.full], "events": [{k: str(v) for k, v in e.items() if k != "now_raw"} for e in ex.events[:40]]})
         # depth-first order inside alts is reversed; for seeding any order is fine
@@ -366,6 +422,9 @@ def explore_parallel(run_path, max_paths=20000, time_budget=None, max_steps=4000
         st.steps += d["steps"]
         st.truncated = st.truncated or d["truncated"]
         st.max_decisions = max(st.max_decisions, d["max_decisions"])
+        for kid, e in (d.get("known") or {}).items():
+            cur = st.known.setdefault(kid, dict(e, count=0))
+            cur["count"] += e["count"]
         if len(st.samples) < 3:
             st.samples.extend(d["samples"][:1])
         if len(st.sample_paths) < 12:
